@@ -241,6 +241,17 @@ theorem LineGrains.get_wf (m : LineGrains R) (isFault : Bool) (pd : PlaneDist R)
             subst h
             constructor <;> simp [h1, h2]
     · simp only [Except.ok.injEq] at h; subst h; exact ⟨h1, h2⟩
+  | randomUniform mn mx comps sizes normalize =>
+    simp only [LineGrains.get, Except.ok.injEq] at h; subst h; exact ⟨h1, h2⟩
+  | randomUniformDeflected mn mx comps basis sizes normalize deflections =>
+    simp only [LineGrains.get, Except.ok.injEq] at h; subst h; exact ⟨h1, h2⟩
+  | drawn g =>
+    simp only [LineGrains.get] at h
+    split at h
+    · rename_i hg
+      simp only [Except.ok.injEq] at h; subst h
+      exact ⟨hg.1.trans h1, hg.2.trans h2⟩
+    · simp only [Except.ok.injEq] at h; subst h; exact ⟨h1, h2⟩
 
 theorem lineGrainsFold_wf (ms : List (LineGrains R)) (isFault : Bool) (pd : PlaneDist R) (n k : Nat) (g0 g1 : Grains R)
     (h0 : g0.WF k) (h : ms.foldlM (fun g m => m.get isFault pd n g) g0 = .ok g1) : g1.WF k := by
@@ -412,23 +423,62 @@ def Hit.tag : Hit R → Nat
 def Hit.paintAt (hit : Hit R) (ctx : Ctx R) (q : Query R) (p : Req) (e : Nat) (out : List R) : QM G (List R) :=
   match hit with
   | .areaLike tag ms a b r => Gwb.paintAt tag ms ctx q a b r p e out
-  | .line f h => liftE (linePaintAt f ctx q h p e out)
+  | .line f h => linePaintAtM f ctx q h p e out
+
+/-- for every request but a grains request the preparation of a segment's models does not look at the grains -/
+theorem Segment.prepare_irrel (s : Segment R) (isFault : Bool) (q : Query R) (pd : PlaneDist R) (p : Req) (g0 g1 : Grains R)
+    (hne : p.code ≠ 3) : (s.prepare isFault q pd p g0 : QM G (Segment R)) = s.prepare isFault q pd p g1 := by
+  unfold Segment.prepare
+  split
+  · rfl
+  · rename_i h3; exact absurd h3 hne
+  · rfl
+
+/-- the preparation reads the request's own block only (its number of grains) -/
+theorem LineHit.prepare_shift (h : LineHit R) (isFault : Bool) (q : Query R) (p : Req) (pre blk post : List R)
+    (hsz : p.size? = some blk.length) :
+    (h.prepare isFault q p (Grains.ofBlock p.k (readBlock pre.length (p.k * 10) (pre ++ blk ++ post))) : QM G (LineHit R)) =
+      h.prepare isFault q p (Grains.ofBlock p.k (readBlock 0 (p.k * 10) blk)) := by
+  by_cases h3 : p.code = 3
+  · have hl : blk.length = p.k * 10 := by
+      simp only [Req.size?, h3, Option.some.injEq] at hsz; exact hsz.symm
+    rw [readBlock_append pre blk post _ hl, readBlock_zero blk _ hl]
+  · unfold LineHit.prepare
+    rw [Segment.prepare_irrel h.cur isFault q h.pd p _ (Grains.ofBlock p.k (readBlock 0 (p.k * 10) blk)) h3]
+    simp only [Segment.prepare_irrel h.next isFault q h.pd p _ (Grains.ofBlock p.k (readBlock 0 (p.k * 10) blk)) h3]
+
+theorem linePaintAtM_length (f : LineFeature R) (ctx : Ctx R) (q : Query R) (h : LineHit R) (p : Req) (blk : List R)
+    (hsz : p.size? = some blk.length) :
+    Post (G := G) (linePaintAtM f ctx q h p 0 blk) (fun b => b.length = blk.length) := by
+  unfold linePaintAtM
+  exact Post.bind (Post.triv _) fun h' _ => Post.liftE (fun b hb => linePaintAt_length f ctx q h' p blk b hsz hb)
+
+theorem linePaintAtM_shift (f : LineFeature R) (ctx : Ctx R) (q : Query R) (h : LineHit R) (p : Req) (pre blk post : List R) (g : G)
+    (hsz : p.size? = some blk.length) :
+    linePaintAtM f ctx q h p pre.length (pre ++ blk ++ post) g = embed pre post (linePaintAtM f ctx q h p 0 blk g) := by
+  unfold linePaintAtM
+  rw [LineHit.prepare_shift h f.isFault q p pre blk post hsz]
+  simp only [QM.bind_apply]
+  cases h.prepare f.isFault q p (Grains.ofBlock p.k (readBlock 0 (p.k * 10) blk)) g with
+  | error e => simp [embed]
+  | ok r =>
+    obtain ⟨h', g'⟩ := r
+    simp only [linePaintAt_shift f ctx q h' p pre blk post hsz]
+    cases linePaintAt f ctx q h' p 0 blk with
+    | error e => simp [embedE, liftE_error, embed]
+    | ok b => simp [embedE, liftE_ok, embed]
 
 theorem Hit.paintAt_length (hit : Hit R) (ctx : Ctx R) (q : Query R) (p : Req) (blk : List R) (hsz : p.size? = some blk.length) :
     Post (G := G) (hit.paintAt ctx q p 0 blk) (fun b => b.length = blk.length) := by
   cases hit with
   | areaLike tag ms a b r => exact Gwb.paintAt_length tag ms ctx q a b r p blk hsz
-  | line f h => exact Post.liftE (fun b hb => linePaintAt_length f ctx q h p blk b hsz hb)
+  | line f h => exact linePaintAtM_length f ctx q h p blk hsz
 
 theorem Hit.paintAt_shift (hit : Hit R) (ctx : Ctx R) (q : Query R) (p : Req) (pre blk post : List R) (g : G)
     (hsz : p.size? = some blk.length) :
     hit.paintAt ctx q p pre.length (pre ++ blk ++ post) g = embed pre post (hit.paintAt ctx q p 0 blk g) := by
   cases hit with
   | areaLike tag ms a b r => exact Gwb.paintAt_shift tag ms ctx q a b r p pre blk post g hsz
-  | line f h =>
-    simp only [Hit.paintAt, linePaintAt_shift f ctx q h p pre blk post hsz]
-    cases linePaintAt f ctx q h p 0 blk with
-    | error e => simp [embedE, liftE_error, embed]
-    | ok b => simp [embedE, liftE_ok, embed]
+  | line f h => exact linePaintAtM_shift f ctx q h p pre blk post g hsz
 
 end Gwb
